@@ -347,6 +347,20 @@ pub fn run(ctx: &Ctx, rep: &mut Report) {
                 texts.push(format!("{}{}{}", rng.pick(&keys), "\u{337f}".repeat(n), rng.pick(&keys)));
             }
         }
+        if wi % 4 == 1 {
+            // more than 65,535 bytes in fewer than 49,149 characters, made of units that no plugin rewrites: over the input
+            // limit, so refused today; whatever is accepted must have consistent offsets
+            let unit = format!("{}{}", rng.s(textgen::HIRA), rng.s(textgen::KANJI));
+            let mut t = String::new();
+            while t.len() < 66_000 + rng.below(6_000) {
+                t.push_str(&unit);
+                if rng.chance(1, 7) {
+                    t.push_str(rng.pick(&keys[..]).as_str());
+                }
+            }
+            texts.push(t);
+            rep.count("inputs_over_65535_bytes_offered", 1);
+        }
         for text in texts {
             rep.eval();
             match guard(|| t.run(&text)) {
